@@ -40,3 +40,24 @@ Example C15_example :
   canout_unmarshal [0xf1; 0xff; 0xff; 1; 2; 3; 0xff; 0xff; 9] = [(0x71, true, 0x1f010203, 0x7ff)] /\
   can_setting_ok (0x71, true, 0x71, 100) /\ can_marshal true 0x0c = [0; 0; 1; 12].
 Proof. unfold can_setting_ok. repeat split; vm_compute; reflexivity. Qed.
+
+(* The model IS the code (output configuration): CANOutputConfiguration.UnmarshalBinary and MarshalBinary as REGENERATED
+   statement by statement from canoutputconfiguration.go on this run, WITH Go's slice aliasing (Gen/CanFns.v: the window
+   w := data[i*8:(i+1)*8-1], the helpers copyBytes / extractBytes translated in place, the masks applied through the
+   sub-slices) compute exactly canout_unmarshal / canout_marshal: for every payload and every destination (contents, length,
+   capacity) the decoder returns no error and never panics, the visible part of the destination is the model's decoding, and the
+   payload it was given is returned unchanged (nothing is written into the caller's bytes); for every configuration whose
+   fields are in their Go types' ranges the encoder returns the model's bytes and leaves the configuration alone. *)
+Require Import Base.GoBytes Base.GoConf Gen.CanFns Tie.CanAgree.
+Theorem C15_can_out_unmarshal_model_is_the_source : forall bk n data, wf_bytes data -> (0 <= n <= Z.of_nat (length bk))%Z ->
+  exists o', g_CANOutputConfiguration_UnmarshalBinary (bk, n) data = Val (None, o', data) /\
+             firstn (Z.to_nat (snd o')) (fst o') = map conv (canout_unmarshal data) /\
+             (0 <= snd o' <= Z.of_nat (length (fst o')))%Z.
+Proof. exact can_unmarshal_agrees. Qed.
+Print Assumptions C15_can_out_unmarshal_model_is_the_source.
+
+Theorem C15_can_out_marshal_model_is_the_source : forall bk n, (n <= length bk)%nat -> Forall can_typed (firstn n bk) ->
+  g_CANOutputConfiguration_MarshalBinary (bk, Z.of_nat n) =
+  Val (canout_marshal (map unconv (firstn n bk)), None, (bk, Z.of_nat n)).
+Proof. exact can_marshal_agrees. Qed.
+Print Assumptions C15_can_out_marshal_model_is_the_source.
